@@ -4,6 +4,85 @@ import json, os
 V = os.path.dirname(os.path.dirname(os.path.abspath(__file__)))
 
 CLAIMED = {
+ "C01": {
+  "text": "Guard at every return of the abstract machine: Ok only if no report was made since the frame was entered, Err only with exactly the bag of reports made since then (none dropped, none twice); Inv_C01 on the generative model over every obligation order x every Continue/Break sequence. Conformance: seeded type-directed payloads on 87 catalogue entries through both value sources under the keep-going script, every C^k B^w script, all scripts for few decisions, random scripts, built-in error types and permuted members; every canonical behaviour TLC finds on the small inputs is replayed; all traces validated by TLC (Trace_core).",
+  "note": "Bounded: catalogue of 87 entries (hand-written); payload sizes <= 7/9 nodes for the exhaustive model, larger random payloads only through trace validation. First deviation wins per run. Trusted: TLC, Json module, std FromStr tables logged by the harness, the recording error type keeps what it is handed.",
+  "technique": "TLA+ abstract deserialization machine: TLC model checking (all orders x answers) + spec->impl replay + impl->spec trace validation",
+  "design_ref": "DESIGN.md sections 3-5 (C01)",
+ },
+ "C02": {
+  "text": "The keep-going run's report bag equals the declarative Faults(type, payload) (independent wording, masking only by structural causes); a frame never returns while obligations are pending unless a stop was answered; checked on the model for all orders and on every all-Continue trace of the real code. Conformance: seeded type-directed payloads on 87 catalogue entries through both value sources under the keep-going script, every C^k B^w script, all scripts for few decisions, random scripts, built-in error types and permuted members; every canonical behaviour TLC finds on the small inputs is replayed; all traces validated by TLC (Trace_core).",
+  "note": "Bounded: catalogue of 87 entries (hand-written); payload sizes <= 7/9 nodes for the exhaustive model, larger random payloads only through trace validation. First deviation wins per run. Trusted: TLC, Json module, std FromStr tables logged by the harness, the recording error type keeps what it is handed.",
+  "technique": "TLA+ abstract deserialization machine: TLC model checking (all orders x answers) + spec->impl replay + impl->spec trace validation",
+  "design_ref": "DESIGN.md sections 3-5 (C02)",
+ },
+ "C03": {
+  "text": "After a stop answer the frame's only candidate is to return; with all later answers stop no new report is made (Inv_C03); every scripted run of the real code is compared event by event with the keep-going run of the same input up to its first stop; JsonError / QueryParamError results equal the rendered first report of the keep-going run. Conformance: seeded type-directed payloads on 87 catalogue entries through both value sources under the keep-going script, every C^k B^w script, all scripts for few decisions, random scripts, built-in error types and permuted members; every canonical behaviour TLC finds on the small inputs is replayed; all traces validated by TLC (Trace_core).",
+  "note": "Bounded: catalogue of 87 entries (hand-written); payload sizes <= 7/9 nodes for the exhaustive model, larger random payloads only through trace validation. First deviation wins per run. Trusted: TLC, Json module, std FromStr tables logged by the harness, the recording error type keeps what it is handed.",
+  "technique": "TLA+ abstract deserialization machine: TLC model checking (all orders x answers) + spec->impl replay + impl->spec trace validation",
+  "design_ref": "DESIGN.md sections 3-5 (C03)",
+ },
+ "C04": {
+  "text": "Every enter / report / hand-over location and quoted value is compared with what the machine computes from the payload by descent (child position = parent position + own step; actual = value there; hand-over location = the child's own position); Inv_C04 on the model. Conformance: seeded type-directed payloads on 87 catalogue entries through both value sources under the keep-going script, every C^k B^w script, all scripts for few decisions, random scripts, built-in error types and permuted members; every canonical behaviour TLC finds on the small inputs is replayed; all traces validated by TLC (Trace_core).",
+  "note": "Bounded: catalogue of 87 entries (hand-written); payload sizes <= 7/9 nodes for the exhaustive model, larger random payloads only through trace validation. First deviation wins per run. Trusted: TLC, Json module, std FromStr tables logged by the harness, the recording error type keeps what it is handed.",
+  "technique": "TLA+ abstract deserialization machine: TLC model checking (all orders x answers) + spec->impl replay + impl->spec trace validation",
+  "design_ref": "DESIGN.md sections 3-5 (C04)",
+ },
+ "C06": {
+  "text": "Arity / kind failures, element i from payload element i, set / map / Option / Box / CS semantics are clauses of Classify, Child and ValueAgrees; every success value of the real code is compared with the combination of the children's observed values; ValueOf / EqMod on the model. Conformance: seeded type-directed payloads on 87 catalogue entries through both value sources under the keep-going script, every C^k B^w script, all scripts for few decisions, random scripts, built-in error types and permuted members; every canonical behaviour TLC finds on the small inputs is replayed; all traces validated by TLC (Trace_core).",
+  "note": "Bounded: catalogue of 87 entries (hand-written); payload sizes <= 7/9 nodes for the exhaustive model, larger random payloads only through trace validation. First deviation wins per run. Trusted: TLC, Json module, std FromStr tables logged by the harness, the recording error type keeps what it is handed.",
+  "technique": "TLA+ abstract deserialization machine: TLC model checking (all orders x answers) + spec->impl replay + impl->spec trace validation",
+  "design_ref": "DESIGN.md sections 3-5 (C06)",
+ },
+ "C07": {
+  "text": "EffKey (rename > rename_all > identifier, camelCase / lowercase computed in the spec from identifier characters) routes members to fields; a field node entered for another key, or a value not taken from its key, has no candidate. Conformance: seeded type-directed payloads on 87 catalogue entries through both value sources under the keep-going script, every C^k B^w script, all scripts for few decisions, random scripts, built-in error types and permuted members; every canonical behaviour TLC finds on the small inputs is replayed; all traces validated by TLC (Trace_core).",
+  "note": "Bounded: catalogue of 87 entries (hand-written); payload sizes <= 7/9 nodes for the exhaustive model, larger random payloads only through trace validation. First deviation wins per run. Trusted: TLC, Json module, std FromStr tables logged by the harness, the recording error type keeps what it is handed.",
+  "technique": "TLA+ abstract deserialization machine: TLC model checking (all orders x answers) + spec->impl replay + impl->spec trace validation",
+  "design_ref": "DESIGN.md sections 3-5 (C07)",
+ },
+ "C08": {
+  "text": "Missing(f) obligations exist exactly for non-skipped, default-less fields whose effective key is routed from no member; skipped fields have no Enter candidate; defaults / map on top are part of ValueAgrees; custom missing functions are calls with (EffKey, container location). Conformance: seeded type-directed payloads on 87 catalogue entries through both value sources under the keep-going script, every C^k B^w script, all scripts for few decisions, random scripts, built-in error types and permuted members; every canonical behaviour TLC finds on the small inputs is replayed; all traces validated by TLC (Trace_core).",
+  "note": "Bounded: catalogue of 87 entries (hand-written); payload sizes <= 7/9 nodes for the exhaustive model, larger random payloads only through trace validation. First deviation wins per run. Trusted: TLC, Json module, std FromStr tables logged by the harness, the recording error type keeps what it is handed.",
+  "technique": "TLA+ abstract deserialization machine: TLC model checking (all orders x answers) + spec->impl replay + impl->spec trace validation",
+  "design_ref": "DESIGN.md sections 3-5 (C08)",
+ },
+ "C09": {
+  "text": "Unknown members are obligations only under deny_unknown_fields (report with Accepted in declaration order at the container location, or the user function called with key / accepted / location); without the attribute they are not obligations at all, so nothing about them can be observed. Conformance: seeded type-directed payloads on 87 catalogue entries through both value sources under the keep-going script, every C^k B^w script, all scripts for few decisions, random scripts, built-in error types and permuted members; every canonical behaviour TLC finds on the small inputs is replayed; all traces validated by TLC (Trace_core).",
+  "note": "Bounded: catalogue of 87 entries (hand-written); payload sizes <= 7/9 nodes for the exhaustive model, larger random payloads only through trace validation. First deviation wins per run. Trusted: TLC, Json module, std FromStr tables logged by the harness, the recording error type keeps what it is handed.",
+  "technique": "TLA+ abstract deserialization machine: TLC model checking (all orders x answers) + spec->impl replay + impl->spec trace validation",
+  "design_ref": "DESIGN.md sections 3-5 (C09)",
+ },
+ "C10": {
+  "text": "Classify of enum nodes: tag lookup, missing / non-string / unknown tag reports at the stated places, variant selected by exact VariantKey, fields read by the variant's own rules from the remaining members; unit enums by exact string with all variant keys listed. Conformance: seeded type-directed payloads on 87 catalogue entries through both value sources under the keep-going script, every C^k B^w script, all scripts for few decisions, random scripts, built-in error types and permuted members; every canonical behaviour TLC finds on the small inputs is replayed; all traces validated by TLC (Trace_core).",
+  "note": "Bounded: catalogue of 87 entries (hand-written); payload sizes <= 7/9 nodes for the exhaustive model, larger random payloads only through trace validation. First deviation wins per run. Trusted: TLC, Json module, std FromStr tables logged by the harness, the recording error type keeps what it is handed.",
+  "technique": "TLA+ abstract deserialization machine: TLC model checking (all orders x answers) + spec->impl replay + impl->spec trace validation",
+  "design_ref": "DESIGN.md sections 3-5 (C10)",
+ },
+ "C11": {
+  "text": "Call / Ret of from, try_from, map, validate and the merges that follow a failure are machine events with their own phases (conversion only after a good intermediate exit, map and validate only in frames without failure, merge first under the field's error type then into the container's); Inv_C11 on the model. Conformance: seeded type-directed payloads on 87 catalogue entries through both value sources under the keep-going script, every C^k B^w script, all scripts for few decisions, random scripts, built-in error types and permuted members; every canonical behaviour TLC finds on the small inputs is replayed; all traces validated by TLC (Trace_core).",
+  "note": "Bounded: catalogue of 87 entries (hand-written); payload sizes <= 7/9 nodes for the exhaustive model, larger random payloads only through trace validation. First deviation wins per run. Trusted: TLC, Json module, std FromStr tables logged by the harness, the recording error type keeps what it is handed.",
+  "technique": "TLA+ abstract deserialization machine: TLC model checking (all orders x answers) + spec->impl replay + impl->spec trace validation",
+  "design_ref": "DESIGN.md sections 3-5 (C11)",
+ },
+ "C12": {
+  "text": "Panic sites are not transitions: the generative model is checked for absence of deadlock before Done, for termination, and evaluates no result of a missing obligation; every harness call runs under catch_unwind and a panic event is a violation; adversarial drivers (extreme numbers, duplicate keys, depth 30 spelled out, depth 127 described). Conformance: seeded type-directed payloads on 87 catalogue entries through both value sources under the keep-going script, every C^k B^w script, all scripts for few decisions, random scripts, built-in error types and permuted members; every canonical behaviour TLC finds on the small inputs is replayed; all traces validated by TLC (Trace_core).",
+  "note": "Bounded: catalogue of 87 entries (hand-written); payload sizes <= 7/9 nodes for the exhaustive model, larger random payloads only through trace validation. First deviation wins per run. Trusted: TLC, Json module, std FromStr tables logged by the harness, the recording error type keeps what it is handed.",
+  "technique": "TLA+ abstract deserialization machine: TLC model checking (all orders x answers) + spec->impl replay + impl->spec trace validation",
+  "design_ref": "DESIGN.md sections 3-5 (C12)",
+ },
+ "C14": {
+  "text": "For every report of a keep-going run over serde_json the real JsonError and QueryParamError renderings are logged and their back-quoted segments compared (as a bag) with what DMessages prescribes from the structured report: path (query without leading dot), value parsed back, names, every alternative, suggestion iff DDidYouMean!Suggest, detail segments; kinds phrase of DKinds; lengths; JsonError's path read back resolves to the quoted value. Conformance: seeded type-directed payloads on 87 catalogue entries through both value sources under the keep-going script, every C^k B^w script, all scripts for few decisions, random scripts, built-in error types and permuted members; every canonical behaviour TLC finds on the small inputs is replayed; all traces validated by TLC (Trace_core).",
+  "note": "Bounded: catalogue of 87 entries (hand-written); payload sizes <= 7/9 nodes for the exhaustive model, larger random payloads only through trace validation. First deviation wins per run. Trusted: TLC, Json module, std FromStr tables logged by the harness, the recording error type keeps what it is handed.",
+  "technique": "TLA+ abstract deserialization machine: TLC model checking (all orders x answers) + spec->impl replay + impl->spec trace validation",
+  "design_ref": "DESIGN.md sections 3-5 (C14)",
+ },
+ "C15": {
+  "text": "The model picks obligations in any order, so Inv_C02 / Inv_C15 (result = order-free Faults / ValueOf) hold over all member orders; the real code is run on permuted members through the order-preserving value source and each outcome is compared with the reference run of the same input. Conformance: seeded type-directed payloads on 87 catalogue entries through both value sources under the keep-going script, every C^k B^w script, all scripts for few decisions, random scripts, built-in error types and permuted members; every canonical behaviour TLC finds on the small inputs is replayed; all traces validated by TLC (Trace_core).",
+  "note": "Bounded: catalogue of 87 entries (hand-written); payload sizes <= 7/9 nodes for the exhaustive model, larger random payloads only through trace validation. First deviation wins per run. Trusted: TLC, Json module, std FromStr tables logged by the harness, the recording error type keeps what it is handed.",
+  "technique": "TLA+ abstract deserialization machine: TLC model checking (all orders x answers) + spec->impl replay + impl->spec trace validation",
+  "design_ref": "DESIGN.md sections 3-5 (C15)",
+ },
+
  "C16": {
   "text": "The derive front end is a TLA+ state machine (DDerive: items consumed one by one into single-valued slots, then the final attribute-combination and shape checks). TLC explores every item sequence of <= 2 (quick) / <= 3 (thorough) items at container, variant and field level in every grouping, valid / invalid value / malformed, and every shape, and checks NoOverride, NoDrop, PoisonRejected, OnlyPoisonRejected and that the machine equals its functional form. Every decided input (2 236 quick; thorough: those plus a seeded sample of 5 000 three-item inputs) is rendered to a Rust item and compiled against the working tree; TLC validates per input that it is rejected exactly when the property lists a cause, by a diagnostic issued by the derive and never a panic, and that accepted inputs compile.",
   "note": "One representative item per shape/level (named struct, tagged enum); helper functions are well typed. A diagnostic without error code is taken to be issued by the derive. Bounded by item-sequence length.",
